@@ -30,3 +30,15 @@ REPLAY = {
 
 def specs():
     return [c() for c in hashing.SPECS]
+
+
+def lemmas():
+    from contracts import hash_lemmas
+
+    return hash_lemmas.lemmas()
+
+
+def bounded(tier, seed, pr):
+    from pyvc.boundedrun import run_bounded
+
+    return [run_bounded(pr, "b_hash.py", "spec_twin_and_pairwise_collisions")]
